@@ -170,7 +170,7 @@ class Judge:
         op = ctx.path("obs-%s.ndjson" % tag)
         ids = sorted(cases)
         lib.write_ndjson(cp, [{"id": i, "T": cases[i]["T"], "j": cases[i]["j"]} for i in ids])
-        extmod = 4 if ctx.quick() else 1   # entry "ext" (everything that writes `extensions` switched on) for every N-th case
+        extmod = 4   # entry "ext" (everything that writes `extensions` switched on) for every N-th case
         ctx.run_bin(self.binary, ["-in", cp, "-out", op, "-entries", ",".join(ENTRIES), "-extmod", str(extmod)], timeout=1800)
         lines = []  # (case id, obs) to be judged by TLC
         failing = set()
@@ -367,7 +367,7 @@ def run(ctx):
 
     # ---- deeper trees by simulation (several TLC processes, seeds derived from VERIF_SEED); started now, they
     # run in the background while the exhaustive part is generated, replayed and judged
-    chunks, walks = (4, 25) if quick else (8, 400)
+    chunks, walks = (4, 25) if quick else (8, 150)
 
     def sim(k):
         return ctx.tlc(SPEC_DIR, "Gen_Render", "Gen_Render_sim.cfg", timeout=2400, deadlock=False, workers=1, simulate=walks, depth=5,
